@@ -145,7 +145,7 @@ def classify_death(rc, stderr):
 TIMEOUT_BUDGET = {"left": 6}     # per check run: a code change that makes the library hang must cost minutes, not hours
 
 
-def run_lines(exe, lines, timeout_per_line=0.05, min_timeout=30, setup=None, env=None, pre=None):
+def run_lines(exe, lines, timeout_per_line=0.05, min_timeout=75, setup=None, env=None, pre=None):
     """Feed one operation per line to a harness that answers one line per operation (flushing). A death of the
     harness is a *result*: the line it died on gets `CRASH <class>` and the run resumes after it (re-sending the
     `setup` lines first). Returns (outputs, crashes) with len(outputs) == len(lines)."""
@@ -278,7 +278,7 @@ def driver(name):
     return BIN / name
 
 
-def run_driver(name, lines, timeout_per_line=0.01, min_timeout=60):
+def run_driver(name, lines, timeout_per_line=0.01, min_timeout=240):
     """the model's answers, one per line; a driver failure is a failed obligation, reported by the caller"""
     inp = "\n".join(lines) + "\n"
     rc, so, se = sh([str(driver(name))], max(min_timeout, timeout_per_line * len(lines)), input=inp)
